@@ -491,8 +491,12 @@ func (c *Cfg) ChangelogYAML() string {
 		return "[]\n" // a changelog file without entries
 	}
 	for _, e := range c.Changelog {
-		fmt.Fprintf(&b, "- semver: %s\n  date: %s\n  packager: %s\n  changes:\n", e.Semver,
-			time.Unix(int64(e.Date), 0).UTC().Format(time.RFC3339), yq(e.Packager))
+		if e.Date == 0 { // an undated entry
+			fmt.Fprintf(&b, "- semver: %s\n  packager: %s\n  changes:\n", e.Semver, yq(e.Packager))
+		} else {
+			fmt.Fprintf(&b, "- semver: %s\n  date: %s\n  packager: %s\n  changes:\n", e.Semver,
+				time.Unix(int64(e.Date), 0).UTC().Format(time.RFC3339), yq(e.Packager))
+		}
 		for i, n := range e.Notes {
 			fmt.Fprintf(&b, "    - commit: %040x\n      note: %s\n", i+1, yq(n))
 		}
